@@ -135,6 +135,9 @@ def chain (c0 : Clause) (steps : List (Clause × Int)) : Clause :=
 /-- `c` is a consequence of `f` -/
 def Entails (f : Cnf) (c : Clause) : Prop := ∀ σ, cnfTrue σ f = true → clauseTrue σ c = true
 
+/-- decision procedure for `Entails f c` through the reference DPLL: `f ∧ ¬c` is unsatisfiable -/
+def entailsB (f : Cnf) (c : Clause) : Bool := !solve (c.map (fun l => [-l]) ++ f)
+
 /-! ### Luby -/
 
 /-- `luby(i)` of `solvor/sat.py`: the regenerated loop with fuel `2*i+2` -/
